@@ -119,9 +119,14 @@ package identity
 
 // Validation of an identity (C09): an accepted identity has at least one version, and from each version to
 // the next every logical clock is kept (none dropped) and does not decrease.
+// validatedClocks(i): the last Validate of identity i accepted it (ghost verdict; it stays true while nothing
+// modifies the identity's list of versions or their clocks - assumed for the writes Commit makes, which set ids and
+// commit hashes only)
+//@ spec func validatedClocks(i *Identity) bool
 //@ func (*Identity).Validate
 //@   props C09
 //@   modifies nothing
+//@   defines [verdict] (result == nil) ==> validatedClocks(i)
 //@   requires i != nil && (forall k int :: { i.versions[k] } 0 <= k && k < len(i.versions) ==> i.versions[k] != nil)
 //@   let n = len(i.versions)
 //@   ensures [has-version]    result == nil ==> n > 0
@@ -230,7 +235,10 @@ package identity
 //@   trusted
 //@   modifies nothing
 //@ func (*Identity).Commit
-//@   props C06 C15
+//@   props C06 C15 C09
+// (C09) what is written passed the validation of the whole identity first: from each version to the next every
+// logical clock is kept and does not decrease (a version written without it is refused by every other replica)
+//@   assert at `blobHash, err := v.Write(repo)` [only-a-validated-history-is-written] validatedClocks(i)
 //@   ensures [own-namespace-only] forall k string :: { (k in repository.refs) } !strings.HasPrefix(k, "refs/identities/") ==> (k in repository.refs) == (k in old(repository.refs)) && repository.refs[k] == old(repository.refs)[k]
 //@   requires i != nil && repo != nil
 //@   requires [versions-set] forall k int :: { i.versions[k] } 0 <= k && k < len(i.versions) ==> i.versions[k] != nil
@@ -240,6 +248,7 @@ package identity
 //@   ensures [ref-update-is-last]     result == nil ==> repository.refMutSeq == repository.mutSeq && repository.mutSeq > old(repository.mutSeq)
 //@   loop 1
 //@     invariant repository.refs == refs0 && repository.mutSeq >= old(repository.mutSeq)
+//@     invariant [validated] validatedClocks(i)
 
 // RemoveAll (C14): every identity that had a local ref is removed the way Remove removes it - remote-tracking
 // refs included (a merge without a new fetch must not bring it back).
@@ -371,7 +380,7 @@ package identity
 //@   modifies mergeRuns
 //@   defines [counted] mergeRuns == old(mergeRuns) + 1
 //@ func Pull
-//@   props C02
+//@   props C02 C06
 //@   stable mergeRuns
 //@   ensures [a-successful-pull-has-merged] result == nil ==> mergeRuns == old(mergeRuns) + 1
 //@   loop 1
